@@ -181,6 +181,7 @@ class Ctx:
 
     def engine(self, label, prop, **kw):
         eng = Engine(label=label, prop=prop, exc_parents=self.exc_parents(), **kw)
+        self.__dict__.setdefault("engines", []).append(eng)
         # A-DIGITS: \d of a str pattern and int() accept every code point of category Nd (64 ranges of ten in the interpreter that runs
         # the library); the solver is given ASCII digits plus ONE other script as the representative of all non-ASCII digits
         # (no pattern, class or built-in used here tells two digit scripts apart) - the full union makes every string query ~10x slower
@@ -346,6 +347,11 @@ def _run_unit(job):
                 out["canaries"]["checked"] += 1
                 if c == "unsat":
                     out["canaries"]["vacuous"] += 1
+        trips = [t_ for e_ in getattr(ctx, "engines", []) for t_ in getattr(e_, "frame_trips", [])]
+        if trips and not any(r["result"] == "sat" for r in out["results"]):
+            # loop-carried state outside the loop specification and nothing failed: not a pass (engine.loop_frame_check)
+            out["status"] = "undecided"
+            out["reason"] = f"out of subset: {trips[0]}"
     except Unsupported as e:
         out["status"] = "undecided"
         out["reason"] = f"out of subset: {e}"
